@@ -26,6 +26,14 @@ PID = "C02"
 def session(rng, kind):
     u = dbgen.Uniq()
     nk = rng.choice([3, 5, 8])
+    if kind == "hugeput":        # a record larger than the log's 4 MiB write buffer, in a session that FOLLOWS a clean Close: two write(2) calls
+        steps = [dbgen.open_step(1, 1 << 30, 1000, mem=120, bg=False)]
+        for i in range(6):
+            steps.append({"op": "put", "k": i % 3, "v": u.next(), "pad": 30})
+        steps += [{"op": "close"}, dbgen.open_step(1, 1 << 30, 1000, mem=1 << 30, bg=False),
+                  {"op": "put", "k": 1, "v": u.next(), "pad": 10}, {"op": "put", "k": 0, "v": u.next(), "pad": 4800000}, {"op": "put", "k": 2, "v": u.next(), "pad": 0},
+                  {"op": "close"}]
+        return steps
     if kind == "bigvalues":      # records larger than the write buffer: split over several write(2) calls
         steps = [dbgen.open_step(rng.choice([0, 1]), 1 << 30, 1000, mem=rng.choice([600, 1500]), bg=True, interval_us=1500, wbuf=rng.choice([16, 48]))]
         pads = [100, 300, 700]
@@ -54,7 +62,9 @@ def session(rng, kind):
         steps += ops(nops)
     steps.append({"op": "close"})
     if rng.random() < 0.6:
-        steps.append(dbgen.open_step(1, 1 << 30, 1000, mem=200, bg=False))
+        # the second session writes through a small buffer too: its records are split over several write(2) calls (torn tails in 000000.wal
+        # next to whatever the clean Close of the first session left in the log directory)
+        steps.append(dbgen.open_step(1, 1 << 30, 1000, mem=200, bg=False, wbuf=rng.choice([16, 48, 0])))
         steps += ops(5)
         steps.append({"op": "close"})
     return steps
@@ -189,6 +199,7 @@ def run(tier, pid=PID, mode="sync"):
     kinds = ["plain", "bigvalues", "overwrite", "twoclients"]
     n = 40 if thorough else 8
     sessions = [("%s-%d" % (kinds[i % 4], i), session(rng, kinds[i % 4])) for i in range(n)]
+    sessions.append(("hugeput-%d" % n, session(rng, "hugeput")))
     npoints, ndistinct, descs, nok, nbad = run_sessions(o, binary, sessions, mode, pid)
     hugewal(o, binary, mode, pid)
     log("[%s] %d sessions, %d crash points (%d distinct images), %d recover into the allowed set, %d rejected" % (pid, n, npoints, ndistinct, nok, nbad))
